@@ -312,10 +312,16 @@ def decide(prop, tier, seed, replay=None):
             else:
                 violations.append((sid, v))
 
-    # harness-level budget / deadlock / watchdog errors in bubus code are liveness failures of C10/C15/C16
-    for sid, err in liveness_viol:
-        if 'liveness' in fam.get('facets', []):
-            violations.append((sid, {'prop': prop, 'clause': 'spin', 'sigs': [], 'detail': err[:300], 'line': 0}))
+    # a scenario in which the real system never comes to rest (the generators only produce terminating programs), or spins
+    # synchronously inside bubus, is a liveness failure: it breaks the rest-based part of the correspondence
+    for sid, info in by_sid.items():
+        err = info['err'] or ''
+        key = err.split(':')[0]
+        if key in ('budget', 'watchdog-in-bubus', 'deadlock') and 'rest' in relevant:
+            diverged.append((sid, {'line': 0, 'why': f'rest: the real system never comes to rest ({key}: ' +
+                                   {'budget': 'loop-iteration budget exhausted while virtual time stands still or work never ends',
+                                    'watchdog-in-bubus': 'synchronous spin inside bubus', 'deadlock': 'no runnable task and no timer'}[key] + ')',
+                                   'raw': err[:400]}))
 
     os.makedirs(os.path.join(ROOT, 'replays'), exist_ok=True)
     exit_code = 0
